@@ -67,7 +67,11 @@ CHECKS["C06"] = {
             "bindings and callbacks. Proved for ALL programs, class environments and builder states (C06_builder_frame, by induction over the whole model of "
             "typedexpr.rs + tir/builder.rs): the translator never renumbers or retypes a local, never removes a block and never touches a block that has its "
             "terminator -- a jump once written keeps its meaning; and the first clause of the property itself: in every body the model of tir::build produces, "
-            "every br / br_cond names an existing block and no br names its own block (C06_jump_targets_exist). The general theorem that every accepted program passes the whole checker (C06_builder_ok_full: also the all-paths termination and define-before-use clauses) is stated but not proved. Two genuine defects found by this "
+            "every br / br_cond names an existing block and no br names its own block (C06_jump_targets_exist); and the first half of the second clause: EVERY block of "
+            "every body has its terminator -- control never runs off the end (C06_every_block_terminated, by counting open blocks through the whole translator: each "
+            "construct closes exactly the labels it marked, so a successful walk leaves the current block as the only open one, C06_walk_leaves_one_open_block, and the "
+            "final pass closes it). The general theorem that every accepted program passes the whole checker (C06_builder_ok_full: also that no REACHABLE block ends in the "
+            "unreachable marker, return consistency and define-before-use) is stated but not proved. Two genuine defects found by this "
             "check were repaired by fix: commits (F2/F14, F18).",
     "technique": "Coq soundness proof of a CFG/dataflow checker + per-program evaluation of the verified checker on the real IR (translation validation) + differential execution model/code",
     "design_ref": "5 C06",
